@@ -213,6 +213,44 @@ def panic_sites(mir):
     return sites
 
 
+def covered_unreachables(tc):
+    """{fn qual: n} - `_ => unreachable!()` arms of an inner match that sits in an arm of an outer match over the same value, where
+    the inner arms list every variant the outer arm admits: such an arm cannot be taken (discharged mechanically, not by the table)"""
+    out = {}
+    for f in tc.fns:
+        if not f.body:
+            continue
+        pm = None
+        for m in sir.walk(f.body):
+            if m.get("k") != "match":
+                continue
+            wild = [a for a in m["arms"] if a["pat"].get("k") == "p_wild" and any(sir.is_panic_node(x) for x in sir.walk(a["body"]))]
+            if not wild:
+                continue
+            inner_vs = set(v for a in m["arms"] if a["pat"].get("k") != "p_wild" for v in sir.pat_variants(a["pat"]))
+            if not inner_vs:
+                continue
+            if pm is None:
+                pm = sir.parent_map(f.body)
+            scr = sir.expr_str(sir.strip_ref(m["e"]))
+            cur = m
+            ok = False
+            while id(cur) in pm and not ok:
+                par = pm[id(cur)]
+                if par.get("k") == "arm":
+                    outer = pm.get(id(par))
+                    if outer is not None and outer.get("k") == "match" and sir.expr_str(sir.strip_ref(outer["e"])) == scr:
+                        outer_vs = set(sir.pat_variants(par["pat"]))
+                        if outer_vs and outer_vs <= inner_vs:
+                            ok = True
+                cur = par
+            if ok:
+                # MIR names a method either with or without its impl type: register both spellings
+                for q in {f.qual, "::".join(list(f.module) + [f.name])}:
+                    out[q] = out.get(q, 0) + len(wild)
+    return out
+
+
 def panic_rule(ctx):
     ob = ctx.ob
     obs = []
@@ -220,11 +258,22 @@ def panic_rule(ctx):
     reviewed = {(r["crate"], r["fn"], r["kind"]): r for r in table}
     sites = panic_sites(ctx.mir)
     total = 0
+    cov = {}
+    for idx_, cname in ((ctx.tc, "template"), (ctx.sc, "stylesheet")):
+        for q, n_ in covered_unreachables(idx_).items():
+            cov[(cname, q)] = n_
+    for (crate, root, cat) in list(sites):
+        if cat == "panic" and cov.get((crate, root)):
+            n_ = min(cov[(crate, root)], len(sites[(crate, root, cat)]))
+            sites[(crate, root, "panic:covered")] = sites[(crate, root, cat)][:n_]
+            sites[(crate, root, cat)] = sites[(crate, root, cat)][n_:]
+            if not sites[(crate, root, cat)]:
+                del sites[(crate, root, cat)]
     # A site that moves between functions (a helper is extracted or inlined) is not a new way to panic: the reviewed table is
     # compared per (crate, kind) over the whole crate first, and per function only to say where a surplus appeared.
     now_tot, rev_tot = {}, {}
     for (crate, root, cat), spans in sites.items():
-        if cat != "unwrap:fmt":
+        if cat not in ("unwrap:fmt", "panic:covered"):
             now_tot[(crate, cat)] = now_tot.get((crate, cat), 0) + len(spans)
     for r in table:
         rev_tot[(r["crate"], r["kind"])] = rev_tot.get((r["crate"], r["kind"]), 0) + r["count"]
@@ -236,6 +285,9 @@ def panic_rule(ctx):
     for (crate, root, cat), spans in sorted(sites.items()):
         total += len(spans)
         key = "C01.panic/%s/%s/%s" % (crate, root, cat)
+        if cat == "panic:covered":
+            obs.append(ob(key, True, spans[0], "%d `_ => unreachable!()` arm(s) of an inner match whose other arms list every variant the enclosing arm admits (cannot be taken)" % len(spans)))
+            continue
         if cat == "unwrap:fmt":
             obs.append(ob(key, True, spans[0], "%d unwrap(s) of a `fmt::Result`: the writers of both crates format into `String` buffers, whose `fmt::Write` never fails (discharged by type, not by count)" % len(spans)))
             continue
